@@ -665,7 +665,8 @@ def plan_found(ctx):
         for form in ("both", "binS", "cbinS"):
             for hand in (("bin", "cbin") if form == "both" else (None,)):
                 h = {"hand": hand} if hand else {}
-                for o in (rnd.sample(keyv, 2) + rnd.sample(opts, 1) if q else keyv + rnd.sample(opts, 6)):
+                # (quick: always a vector that verifies, compresses and deletes - the one under which every file of the original is touched)
+                for o in ([rnd.choice([v for v in keyv if v["cmp"]])] + rnd.sample(opts, 1) if q else keyv + rnd.sample(opts, 6)):
                     o = dict(o, **h)
                     out.append((kind, form, [(o, "ALL" if not q and o in keyv else None)], {}))
                     o2 = dict(rnd.choice(opts), **rnd.choice([{}, {}, {"hand": "bin"}, {"hand": "cbin"}]))
@@ -676,7 +677,8 @@ def plan_found(ctx):
         # (b) shank folders that already hold something: other files, output of another recording (longer, other samples) under
         # the names this conversion writes, output of a conversion with another `extra`
         for form in (("bin", "cbin") if not q else (rnd.choice(("bin", "cbin")),)):
-            for found in (("dirs", "bins", "cbins", "mixed", "otherextra") if kind == "NP24" else ("bins", "cbins", "mixed")):
+            founds = ("dirs", "bins", "cbins", "mixed", "otherextra") if kind == "NP24" else ("bins", "cbins", "mixed")
+            for found in (founds if not q else [f for f in founds if f != ("mixed", "bins")[ctx.seed % 2]]):
                 su = {"found": found}
                 noow = [ow(o, False) for o in (rnd.sample(keyv, 1) if q else rnd.sample(keyv, 2) + rnd.sample(opts, 3))]
                 forced = [ow(o) for o in (rnd.sample(keyv, 1) + rnd.sample(opts, 1) if q else keyv[::2] + rnd.sample(opts, 3))]
@@ -823,6 +825,12 @@ def run(ctx):
     zero = [a for a in tlc.coverage_zero_actions(r.out) if a != "UnlinkStaleRaises"]
     if zero:
         raise tlc.TLCError(f"vacuity: actions never taken {zero}")
+    if not ctx.quick:
+        # the thorough box has 3 runs over the main initial directories; every form of the original x every found state: 2 runs
+        r = tlc.run("mc/MC_NP2Convert.tla", "mc/NP2Convert_wide.cfg", workers=8, timeout=3000, heap="8g")
+        ctx.tlc(r, "mc/NP2Convert_wide.cfg")
+        if not r.ok:
+            raise tlc.TLCError(f"NP2Convert model (all initial directories) violates {r.invariant_violated}:\n{r.out[-2500:]}")
     # composition (spec/sys/System.tla): compress_file's own protocol (C02) refines the converter's atomic CompressFile step
     scfg = "mc/System_quick.cfg" if ctx.quick else "mc/System_thorough.cfg"
     r = tlc.run("mc/MC_System.tla", scfg, workers=8, timeout=3000, heap="8g")
